@@ -315,6 +315,23 @@ def judge(case, scenario, run):
                         "the rule called at t=%s returned %r, demand writes at that instant: %r"
                         % (entry[0], entry[4], written))
     if service == "FactoryPool":
+        # a pool that shrinks releases a child only while the others still cover the request
+        demand_of, request = {"child0": 1.0}, case["init"]
+        for when, kind, name, attribute, value in log:
+            if kind == "factory":
+                demand_of["child%d" % len(demand_of)] = 1.0
+            elif kind == "env" and name == "factorypool" and attribute == "demand":
+                request = value
+            elif kind == "env" and attribute == "quit":
+                demand_of["child0"] = 0
+            elif kind == "set" and attribute == "demand" and name in demand_of:
+                released = value == 0 and demand_of[name] > 0
+                demand_of[name] = value
+                covered = sum(v for v in demand_of.values() if v > 0)
+                if released and covered < request and when < duration:
+                    return "FactoryPool.run:released-below-request", (
+                        "at t=%s the pool released %s although the children left in demand "
+                        "provide %s of the requested %s" % (when, name, covered, request))
         # what an adjustment is for: once a boundary has passed after the last environment
         # action, the children still in demand cover the request
         last_action = max([entry[0] for entry in log if entry[1] == "env"] + [0.0])
